@@ -535,3 +535,88 @@ example :
 example :
     let r2 := ({ (C14.heap3.sleepAndFire C14.cfg2 C14.polW) with buf := [] }).sleepAndFire C14.cfg2 C14.polW
     (r2.now, r2.buf, r2.heap.map (·.at_), r2.nextWakeup) = (9, [.waiterTimeout 4 7], [15], some 15) := by decide
+
+/-! ## retries that were already granted: the reload does not take them back (any policy, any downtime) -/
+
+/-- **a journaled retry tick carries its own clock**: a `TickAddEvent` that brings `first_attempt_at` along (every retry the
+control loop queued: `CommandQueueEvent(first_attempt_at=this_execution.first_attempt_at)`) starts -- or enqueues -- exactly the same
+execution whatever the reducer's clock, live or in a replay any time later -/
+theorem C14_retry_tick_carries_its_first_attempt (att : Attempt) (f : Int) (hf : att.firstAt = some f) (hf0 : f ≠ 0)
+    (step : Nat) (ss : StepState) (nw : Nat) (n n' : Int) :
+    addOrEnqueue att step ss nw n = addOrEnqueue att step ss nw n' := by
+  unfold addOrEnqueue orInt
+  simp [hf, hf0]
+
+/-- **what a failed execution leads to does not depend on when the tick is reduced** -- for EVERY retry policy, time-bounded ones
+(`stop_after_delay`, `stop_before_delay`, anything reading `elapsed_time`) included: the elapsed time handed to the policy is
+`failed_at - first_attempt_at`, both carried by the journal, so a replay at any later clock issues the very commands the live
+loop issued (same retry granted, same delay, same exit), and the states differ at most in the first-attempt stamps of queued
+events started by the drain -/
+theorem C14_step_result_ignores_reducer_clock (cfg : Cfg) (pol : Policy) (step worker : Nat) (ev : Ev) (res : List Res)
+    (st : State) (n n' : Int) :
+    (reduce cfg pol (.stepResult step worker ev res) st n).2 = (reduce cfg pol (.stepResult step worker ev res) st n').2 ∧
+      SimSt (reduce cfg pol (.stepResult step worker ev res) st n).1 (reduce cfg pol (.stepResult step worker ev res) st n').1 := by
+  have key : (processStepResult cfg pol step worker ev res st n).2 = (processStepResult cfg pol step worker ev res st n').2 ∧
+      SimSt (processStepResult cfg pol step worker ev res st n).1 (processStepResult cfg pol step worker ev res st n').1 := by
+    unfold processStepResult
+    split
+    · exact ⟨rfl, SimSt.refl _⟩
+    · split
+      · exact ⟨rfl, SimSt.refl _⟩
+      · simp only
+        split
+        · exact ⟨rfl, SimSt.refl _⟩
+        · rename_i exec _ _
+          obtain ⟨hd, hc⟩ := drain_sim step (cfg.nw step) n n'
+            (settle (res.foldl (applyRes cfg pol step ev (res.any isResult)) { st := st, exec := exec }) step worker ev).1.queue.length
+            (SimSS.refl (settle (res.foldl (applyRes cfg pol step ev (res.any isResult)) { st := st, exec := exec }) step worker ev).1)
+          exact ⟨by rw [hc], (SimSt.refl _).set step hd⟩
+  obtain ⟨kc, ks⟩ := key
+  simp only [reduce]
+  rw [checkIdle_sim cfg ks]
+  split
+  · exact ⟨by simp [kc], ks⟩
+  · exact ⟨kc, ks⟩
+
+/-- the journaled retry tick followed by the failure of the execution it starts: reduced at clocks `n`, `m` (live) or at
+`n'`, `m'` (a replay after any downtime), the same commands come out -- a retry that was granted is granted again -/
+theorem C14_granted_retry_regranted_at_any_replay_clock (cfg : Cfg) (pol : Policy) (att : Attempt) (f : Int)
+    (hf : att.firstAt = some f) (hf0 : f ≠ 0) (step worker nw : Nat) (res : List Res) (st : State) (n n' m m' : Int) :
+    (reduce cfg pol (.stepResult step worker att.ev res) (st.set step (addOrEnqueue att step (st.workers step) nw n).1) m).2 =
+      (reduce cfg pol (.stepResult step worker att.ev res) (st.set step (addOrEnqueue att step (st.workers step) nw n').1) m').2 := by
+  rw [C14_retry_tick_carries_its_first_attempt att f hf hf0 step (st.workers step) nw n n']
+  exact (C14_step_result_ignores_reducer_clock cfg pol step worker att.ev res _ m m').1
+
+namespace C14
+def startEvB : Ev := { ty := 0, kind := .start, uid := 1 }
+/-- `stop_after_delay(7)`, `wait_fixed(2)` -/
+def polD : Policy := fun _ el _ _ => if el < 7 then .retry 2 else .stop
+def cfgD : Cfg := { steps := [{ name := 0, accepted := [0], numWorkers := 1, hasRetry := true }] }
+def srvD : SrvCfg := { cfg := cfgD, timeout := none, idleTimeout := 1000 }
+/-- failures at t = 0 and t = 2 (2 s of the 7 s budget used), retry 2 starts at t = 4 and is executing at t = 5 -/
+def actsD : List SAct :=
+  [.run .drain, .run (.workerDone 0 0 [.failed 7 1000]), .run .drain, .run .drain, .run (.advance 2), .run .timer, .run .drain,
+   .run (.workerDone 0 0 [.failed 7 1002]), .run .drain, .run .drain, .run (.advance 2), .run .timer, .run .drain, .run (.advance 1)]
+def sD : Srv := Srv.run srvD polD (Srv.start srvD startEvB 1000) actsD
+/-- process stop, 20 s of downtime (the budget is 7 s), next boot -/
+def sD' : Srv := Srv.run srvD polD sD [.restart, .run (.advance 20), .resume]
+end C14
+def C14.wakeB : Tick := .addEvent { ev := { ty := 9, kind := .plain, uid := 50 } } none
+def C14.sD2 : Srv := Srv.run C14.srvD C14.polD C14.sD [.restart, .run (.advance 20), .send C14.wakeB]
+
+/-- non-vacuity, on the server model: `stop_after_delay(7)` / `wait_fixed(2)`, failures at t = 1000 and 1002, retry 2 executing at
+t = 1005 (2 s of the budget used); process stop, 20 s down, a send reloads the run at t = 1025 -- 25 s after the first attempt:
+the replay keeps both granted retries (no `notRunning`, no exit), the run is live again and the step is executing -/
+example : (C14.sD.now, C14.sD.status, C14.sD.live.map (fun r => (r.running.map (fun w => w.step),
+      (r.st.workers 0).inProg.map (fun i => (i.attempts, i.firstAt))))) = (1005, .running, some ([0], [(2, 1000)])) := by decide
+example : (C14.sD2.now, C14.sD2.status, C14.sD2.loads, C14.sD2.err.isNone, C14.sD2.live.map (fun r => (r.outcome.isNone, r.running.map (fun w => w.step)))) =
+    (1025, .running, 2, true, some (true, [0])) := by decide
+/-- the policy really is time-bounded: asked at the clock of the reload it would give up -/
+example : C14.polD 0 (1025 - 1000) 2 7 = .stop ∧ C14.polD 0 (1002 - 1000) 2 7 = .retry 2 := by decide
+/-- the two clocks of `C14_granted_retry_regranted_at_any_replay_clock` on that history: retry tick reduced live at 1002 / in a replay at
+1025, its failure at 1004 / 1025 -/
+example :
+    let att : Attempt := { ev := C14.startEvB, attempts := some 1, firstAt := some 1000, lastExc := some 7, lastFailedAt := some 1000 }
+    (reduce C14.cfgD C14.polD (.stepResult 0 0 att.ev [.failed 7 1002])
+        (initState.set 0 (addOrEnqueue att 0 (initState.workers 0) 1 1025).1) 1025).2.any
+      (fun c => match c with | .queueEvent a (some 0) (some 2) => a.attempts == some 2 && a.firstAt == some 1000 | _ => false) = true := by decide
